@@ -18,7 +18,7 @@ EVAL_QUERIES = [
     "$[?@.a == undefined || @.b in missing]", "$[?@.* in @.b]", "$[?@.a contains @.*]",
 ]
 SOUP = [
-    "$[?@ =~ /[/]", "$[?@ =~ /(/]", "$[?@ =~ /*/]", "$[?@ =~ /a{2,1}/]", "$[?@ =~ /\\/]", "$[?@ =~ /(?P<n>a)(?P<n>b)/]", "$[?@ =~ /a/x]",
+    "$[?@.a =~ /(?u)x/a]", "$[?@.a =~ /(?a)x/]", "$[?@.a =~ /(?i)x/m]", "$[?@.a == 1.0e400]", "$.._x", "$..and", "$..#", "$.. _x", "$[?@ =~ /[/]", "$[?@ =~ /(/]", "$[?@ =~ /*/]", "$[?@ =~ /a{2,1}/]", "$[?@ =~ /\\/]", "$[?@ =~ /(?P<n>a)(?P<n>b)/]", "$[?@ =~ /a/x]",
     "$[?@.a == 1e400]", "$[?@.a == -1e400]", "$[?@.a == 1e309]", "$[?@.a == 1.5e400]", "$[?@.a == 1e-400]", "$[?@.a == 9" + "9" * 400 + "]",
     "$[?@.a == 'abc]", '$[?@.a == "abc]', "$['abc]", "$[\"a", "$[?@ =~ /abc]", "$[?@ =~ /]", "$[?@.a == '\\u12']", "$['\\x']", '$["\\ud800"]',
     "$['\\ud83d\\ude00']", "$[?@.a == '\\']", "$.", "$..", "$...", "$.[", "$[?", "$[?(", "$[?@.a ==]", "$[?== 1]", "$[?@.a && ]", "$[-]", "$[+1]",
@@ -62,7 +62,7 @@ def plan(tier: str, seed: int) -> Plan:
                                           "filter context holds a symbolic primitive"))
     conds.append(Condition("pointer-text", "pointer", H, "pointer_text", {"maxs": 4 if thorough else 2}, T * 2, required=False,
                            bounds=f"pointer text: symbolic str len<={4 if thorough else 2}, escape decoding off; documents with a symbolic leaf"))
-    sg = 19 if thorough else 10
+    sg = 20 if thorough else 11
     for ue in (False, True):
         for prefix in (0, 1, 2):
             conds.append(Condition(f"pointer-sigma:ue={ue}:prefix={prefix}", "pointer", H, "pointer_sigma",
